@@ -1,3 +1,4 @@
+import Cactus.Lemmas.Final
 import Cactus.Lemmas.Orphan
 import Cactus.Props.C13
 /-!
@@ -64,5 +65,38 @@ example : let s := runWith 64 ringTailHistory
 example : let s := runWith 64 (ringTailHistory ++ [(.act (.drop 0), [])])
     s.err = none ∧ ∀ v, v < 4 → Ev.destroyed v ∈ s.log ∧ Ev.freed v ∈ s.log := by
   decide
+
+
+/-! ## The property, at full strength
+
+`ReachableP s`: `s` occurs in some execution (at an operation boundary or in the middle of a
+teardown, e.g. while a user destructor runs) of some history — any object-graph shape, any
+multiplicities, any drop order, any `shuffle`s and hints (every layout) — in which the adoption
+contract `P` ("never more recorded adoptions from an owner to a target than the owner's value holds
+handles to it") held in every state passed through. -/
+
+/-- **C01.** Every object reachable from a strong handle the program still holds — directly or
+through handles stored inside other reachable objects, recorded as adoptions or not — is live: its
+strong count is positive, its allocation has not been released and its value is still in place
+(its destructor has not run). -/
+theorem C01_no_premature_destruction {s : State} (h : ReachableP s) (he : s.err = none)
+    {o : Nat} (hr : s.Reach o) :
+    s.isLive o = true ∧ ∃ ob v, s.heap[o]? = some ob ∧ ob.freed = false ∧ ob.value = some v := by
+  have hlive := reach_live (reachableP_invS h he) hr
+  refine ⟨hlive, ?_⟩
+  have hO := (reachable_core h.reachable he).1.1
+  obtain ⟨ob, n, hg, hf, hs⟩ := (State.isLive_eq_true_iff s o).mp hlive
+  obtain ⟨hv, _, _, _⟩ := (hO o ob hg).1 n hs
+  obtain ⟨v, hv⟩ := Option.isSome_iff_exists.mp hv
+  exact ⟨ob, v, hg, hf, hv⟩
+
+/-- the same for the states produced by `run`, as a function of the history -/
+theorem C01_run (ops : List (Op × List Nat)) (hP : ReachableP (run ops)) (he : (run ops).err = none)
+    {o : Nat} (hr : (run ops).Reach o) : (run ops).isLive o = true :=
+  (C01_no_premature_destruction hP he hr).1
+
+/-- the contract is satisfiable and the theorem is not vacuous: the initial state is
+contract-respecting-reachable -/
+example : ReachableP ({} : State) := .init
 
 end Cactus
